@@ -52,8 +52,8 @@ func genFastqList(r *rand.Rand, maxn int) []*fastq.Fastq {
 func fastqListString(recs []*fastq.Fastq) string {
 	s := fmt.Sprintf("%d records:", len(recs))
 	for _, r := range recs {
-		if len(r.Sequence) > 100 {
-			s += fmt.Sprintf(" {name=%q len=%d}", r.Name, len(r.Sequence))
+		if len(r.Sequence) > 100 || len(r.Name) > 100 {
+			s += fmt.Sprintf(" {name=%.60q namelen=%d len=%d}", r.Name, len(r.Name), len(r.Sequence))
 		} else {
 			s += fmt.Sprintf(" {name=%q seq=%q quals=%q}", r.Name, r.Sequence, r.Quals)
 		}
@@ -201,6 +201,9 @@ func c02Lengths(c *Ctx) {
 		c.Case(int64(i), func(k *K) {
 			r := k.Rand()
 			recs := []*fastq.Fastq{genFastqRecord(r, l)}
+			if r.IntN(4) == 0 {
+				recs[0].Name = randBytesExcl(r, longSize(r), noCRLF) // name longer than the I/O buffers
+			}
 			if r.IntN(2) == 0 {
 				recs = append(recs, genFastqRecord(r, r.IntN(50)))
 			}
